@@ -309,4 +309,124 @@ theorem ageRowN_alive (dt : Rat) (hdt : 0 < dt) (alive : Nat → Bool) (a b : Na
           simp [h0, h1, ageRow, npos]
         · simp [h0, h1]
 
+/-! ### table-level lifetimes -/
+
+/-- the rows present before a stretch of `k` network steps contribute exactly their `k`-times aged versions, in order,
+    as a prefix of the table after the stretch -/
+theorem runRowsL_split (dt : Rat) : ∀ (steps : List ((Nat → Bool) × List (Nat × Nat × Rat))) (r1 r2 : List (Nat × Nat × Rat)),
+    runRowsL dt (r1 ++ r2) steps = r1.filterMap (ageRowL dt (steps.map (·.1))) ++ runRowsL dt r2 steps
+  | [], r1, r2 => by simp [runRowsL, ageRowL]
+  | (al, new) :: rest, r1, r2 => by
+      simp only [runRowsL, List.filterMap_append, List.append_assoc, List.map_cons]
+      rw [runRowsL_split dt rest, List.filterMap_filterMap]
+      rfl
+
+/-- closed form for a row whose endpoints are alive at every one of the `k` steps -/
+theorem ageRowL_alive (dt : Rat) (hdt : 0 < dt) (a b : Nat) : ∀ (als : List (Nat → Bool)) (d : Rat),
+    (∀ al ∈ als, al a = true ∧ al b = true) →
+    ageRowL dt als (a, b, d) = if als.length = 0 ∨ (als.length : Rat) * dt < d then some (a, b, d - als.length * dt) else none
+  | [], d, _ => by simp [ageRowL]; grind
+  | al :: als, d, h => by
+      have hal := h al (by simp)
+      have ih := ageRowL_alive dt hdt a b als (d - dt) (fun x hx => h x (by simp [hx]))
+      have hc : ((als.length + 1 : Nat) : Rat) = (als.length : Rat) + 1 := by push_cast; rfl
+      have hk0 : (0 : Rat) ≤ (als.length : Rat) := by exact_mod_cast Nat.zero_le _
+      simp only [ageRowL, ageRow, hal.1, hal.2, Bool.and_true, decide_eq_true_eq, List.length_cons, hc]
+      have hnz : ¬ (als.length + 1 = 0) := by omega
+      by_cases h1 : ((als.length : Rat) + 1) * dt < d
+      · have pos : 0 < d - dt := by
+          have : (als.length : Rat) * dt ≥ 0 := Rat.mul_nonneg hk0 (Rat.le_of_lt hdt)
+          grind
+        have h0 : als.length = 0 ∨ (als.length : Rat) * dt < d - dt := Or.inr (by grind)
+        simp only [pos, ↓reduceIte, Option.bind_some, ih, h0, h1, hnz, false_or]
+        congr 3; grind
+      · simp only [h1, hnz, false_or, ↓reduceIte]
+        by_cases pos : 0 < d - dt
+        · have h0 : ¬ (als.length = 0 ∨ (als.length : Rat) * dt < d - dt) := by
+            intro hh
+            rcases hh with hh | hh
+            · have : (als.length : Rat) = 0 := by exact_mod_cast hh
+              apply h1; rw [this]; grind
+            · apply h1; grind
+          rw [if_pos pos, Option.bind_some, ih, if_neg h0]
+        · simp [pos]
+
+/-- rows of a table after appending well-shaped new columns -/
+theorem Table.rows_append {t t' : Table} {a b : List Nat} {c : Choice} (hw : t.WF) (hd : t.keys.dur = true)
+    (hab : a.length = b.length) (h : t.append (mkCols a b c) = .ok t') :
+    t'.rows = t.rows ++ a.zip (b.zip ((List.range a.length).map c.durAt)) := by
+  unfold Table.append at h
+  split at h
+  · rename_i a' b' be d ac st sp h1 h2 h3 h4 h5 h6 h7
+    simp only [Except.ok.injEq] at h; subst h
+    simp only [mkCols, Option.some.injEq, need, hd, ↓reduceIte] at h1 h2 h4
+    subst h1 h2 h4
+    obtain ⟨w2, w3, w4, _⟩ := hw
+    simp only [hd, colLen, ↓reduceIte] at w4
+    simp only [Table.rows]
+    have e1 : t.p1.length = (t.p2.zip t.dur).length := by rw [List.length_zip]; omega
+    have e2 : t.p2.length = t.dur.length := by omega
+    rw [List.zip_append e2, List.zip_append e1]
+  · simp at h
+
+/-! ### the plain-number branch of RandomNet -/
+
+theorem plainSource_asis_eq_spec {born counts : List Nat} (h : counts.length ≤ born.length) :
+    plainSource .asis born counts = plainSource .spec born counts := by
+  simp only [plainSource]
+  rw [List.drop_eq_nil_of_le h]; simp
+
+/-! ### mixing pools -/
+
+theorem mem_insertSorted (x u : Nat) : ∀ l : List Nat, u ∈ insertSorted x l ↔ u = x ∨ u ∈ l
+  | [] => by simp [insertSorted]
+  | y :: ys => by
+      simp only [insertSorted]
+      split
+      · simp
+      · split
+        · rename_i _ hxy; subst hxy; simp
+        · simp only [List.mem_cons, mem_insertSorted x u ys]
+          constructor
+          · rintro (h | h | h) <;> simp [h]
+          · rintro (h | h | h) <;> simp [h]
+
+theorem mem_setdiff {l uids : List Nat} {u : Nat} : u ∈ setdiff l uids ↔ u ∈ l ∧ u ∉ uids := by
+  unfold setdiff
+  generalize hl : l.filter (fun u => !uids.contains u) = f
+  have key : ∀ f : List Nat, u ∈ f.foldr insertSorted [] ↔ u ∈ f := by
+    intro f
+    induction f with
+    | nil => simp
+    | cons x xs ih => simp [List.foldr_cons, mem_insertSorted, ih]
+  rw [key, ← hl]; simp
+
+/-- every explicit group member is an active agent -/
+def PoolOK (w : PoolWorld) : Prop := ∀ g ∈ w.pool.groups, ∀ u ∈ g, u ∈ w.pop.auids
+
+theorem PoolWorld.step_ok {w : PoolWorld} (op : Op) (h : PoolOK w) : PoolOK (w.step op) := by
+  cases op with
+  | grow k f a =>
+      intro g hg u hu
+      simp only [PoolWorld.step, Pop.grow, List.mem_append]
+      exact Or.inl (h g hg u hu)
+  | die uids => exact h
+  | removeDead =>
+      intro g hg u hu
+      simp only [PoolWorld.step, Pool.removeUids, List.mem_map] at hg
+      obtain ⟨g0, hg0, rfl⟩ := hg
+      obtain ⟨hm, hn⟩ := mem_setdiff.mp hu
+      simp only [PoolWorld.step, Pop.dropDead, List.mem_filter]
+      exact ⟨h g0 hg0 u hm, by simpa using hn⟩
+  | setAge a => exact h
+  | netStep dt ti c => exact h
+  | matAdd m u d s => exact h
+  | matEnd ti => exact h
+
+theorem PoolWorld.run_ok : ∀ (ops : List Op) {w : PoolWorld}, PoolOK w → PoolOK (w.run ops)
+  | [], _, h => h
+  | op :: ops, w, h => by
+      simp only [PoolWorld.run, List.foldl_cons]
+      exact PoolWorld.run_ok ops (PoolWorld.step_ok op h)
+
 end StarsimModel.Network
